@@ -312,10 +312,17 @@ class Check(object):
 
 
 def load_known():
+    """known_findings.json plus per-property files known_findings.d/*.json (never written at run time)"""
+    out = []
     p = os.path.join(VERIF, 'known_findings.json')
-    if not os.path.exists(p):
-        return []
-    return json.load(open(p))['findings']
+    if os.path.exists(p):
+        out += json.load(open(p))['findings']
+    d = os.path.join(VERIF, 'known_findings.d')
+    if os.path.isdir(d):
+        for f in sorted(os.listdir(d)):
+            if f.endswith('.json'):
+                out += json.load(open(os.path.join(d, f)))['findings']
+    return out
 
 
 def use_repo():
